@@ -421,7 +421,7 @@ func detrestPureSuite(c *Ctx) {
 			}
 		}
 	}
-	n := c.Pick(1500, 40000)
+	n := c.Pick(1200, 40000)
 	for i := 0; i < n && c.TimeLeft(); i++ {
 		img := detrestGen(r, c.Pick(120, 300))
 		if r.Chance(0.1) { // small random images 4x4 .. 6x6
